@@ -97,7 +97,7 @@ def _h(name, tiers, role, bounds, covers, pool=False):
 
 SPEC = {
     "property": "C05",
-    "level_text": "Bounded symbolic verification of the real voting logic (consensus/votor.rs) against a reference monitor written from the property statement: on a freshly constructed node (the real Votor::new), after an optional fixed prefix, 2 (quick) or 3-4 (thorough) further events are delivered through the real handlers handle_blockstore_event / handle_timeout_event / handle_pool_event; WHICH event comes next is chosen by the solver from the family's menu of 4-7 concrete events (blocks of two competing chains arriving in any order, first shred, invalid block, timeouts, crashed-leader timeout, ParentReady for two candidate parents, SafeToNotar, SafeToSkip, CertCreated for all five certificate types, standstill bundles), so one harness decides all orders at once. Every vote is checked at the moment it is broadcast, knowing only what the node has been shown and what it has cast before: at most one initial vote per slot (notar or skip); notar only for a received block whose parent was announced ready (first slot of a window) or is the block the node notarized in the preceding slot; final only for the block it notarized, only after that block's notarization certificate was shown, never in a slot with its skip / skip-fallback / notar-fallback vote, and none of those after final; fallback votes only in slots where it has voted and only while handling the matching SafeToNotar(slot, block) / SafeToSkip(slot) event; every vote carries the node's own validator index and is signed with its own key; certificates are re-broadcast at most once per event, standstill bundles exactly. In two harnesses every vote is additionally shown, in emission order, to the pool's real SlotState::check_slashable_offence, which never reports an offence. 20 harnesses over two leader windows (slots 1-3 behind genesis, slots 4-7 with parents in slot 3). Counterexamples are replayed natively on the unmodified async code (real tokio channels and runtime context, real BLS keys, std containers); eight seeded mutations of votor.rs were each found and reproduced natively.",
+    "level_text": "Bounded symbolic verification of the real voting logic (consensus/votor.rs) against a reference monitor written from the property statement: on a freshly constructed node (the real Votor::new), after an optional fixed prefix, 2 (quick) or 3-4 (thorough) further events are delivered through the real handlers handle_blockstore_event / handle_timeout_event / handle_pool_event; WHICH event comes next is chosen by the solver from the family's menu of 4-7 concrete events (blocks of two competing chains arriving in any order, first shred, invalid block, timeouts, crashed-leader timeout, ParentReady for two candidate parents, SafeToNotar, SafeToSkip, CertCreated for all five certificate types, standstill bundles), so one harness decides all orders at once. Every vote is checked at the moment it is broadcast, knowing only what the node has been shown and what it has cast before: at most one initial vote per slot (notar or skip); notar only for a received block whose parent was announced ready (first slot of a window) or is the block the node notarized in the preceding slot; final only for the block it notarized, only after that block's notarization certificate was shown, never in a slot with its skip / skip-fallback / notar-fallback vote, and none of those after final; fallback votes only in slots where it has voted and only while handling the matching SafeToNotar(slot, block) / SafeToSkip(slot) event; every vote carries the node's own validator index and is signed with its own key; certificates are re-broadcast at most once per event, standstill bundles exactly. In two harnesses every vote is additionally shown, in emission order, to the pool's real SlotState::check_slashable_offence, which never reports an offence. 20 harnesses over two leader windows (slots 1-3 behind genesis, slots 4-7 with parents in slot 3). Counterexamples are replayed natively on the unmodified async code (real tokio channels and runtime context, real BLS keys, std containers); eight seeded mutations of votor.rs were each found and reproduced natively. Family c05_g_gap_k2 offers blocks that do not build on the preceding slot (a slot-3 block on the slot-1 block, a slot-2 block on genesis): they are never notarized.",
     "level_note": "NOT an inductive proof: histories of 2-4 solver-chosen events (plus a fixed prefix of up to 2) from the fresh state, events with concrete slots/blocks per family, slots 0-7, at most 2 blocks per slot, 2 candidate parents. Under Kani the async plumbing of votor.rs is rewritten mechanically, bodies verbatim (spec.py REDIRECTS): the eight async fns are compiled as ordinary functions behind Ready-returning wrappers, `.await` on them is a poll that must complete at once, Votor::broadcast is a synchronous recorder (the All2All implementation is exercised only in native replay), tokio::spawn of the timer task is dropped (timeouts are injected events), tokio mpsc ends are inert stand-ins, std BTreeMap/BTreeSet/Vec inside votor.rs are slot-indexed / 2-element / bitmap stand-ins (c05_coll.rs), the loop over pending slots visits slot numbers 0..7 in order and skips absent ones; BlockHash equality is compared word-wise, SecretKey::sign returns a token carrying the key's identity, log::max_level() is Off. CertCreated events reach handle_cert_created through the real should_ignore_pool_event but not through handle_pool_event's match (PoolEvent keeps its discriminant in a niche of the certificate, which CBMC does not constant-fold). Environment assumptions: SafeToNotar(s,b) only after the node's initial vote in s was skip or notar for another block, SafeToSkip(s) only after its notar vote in s (what the pool's check_safe_to_notar / count_*_stake guarantee; C06). Trusts Kani 0.68 MIR translation, CBMC 6.11, CaDiCaL.",
     "overlays": [COLL, C05COLL, FIX, AGG, CERT, POOLM, REEXP, MAIN],
     "redirects": REDIRECTS,
